@@ -31,12 +31,13 @@ type Case struct {
 	Writer gosim.WriterPlan `json:"writer,omitempty"`
 
 	// oracle data computed by the generator (explicit, so that replays do not depend on it)
-	CmdEnds  []int     `json:"cmd_ends,omitempty"` // C07: byte offset just after each complete command
-	Heredocs []HereDoc `json:"heredocs,omitempty"` // C08: expected here-documents in source order
-	Note     string    `json:"note,omitempty"`
-	GenTape  []uint32  `json:"gen_tape,omitempty"` // generator choice tape (for shrinking); not part of the case identity
-	Mode     uint      `json:"mode,omitempty"`     // expand: ExpMode
-	DFS      int       `json:"dfs,omitempty"`      // >0: walk ALL schedule tapes of this case depth-first (at most this many runs) instead of the planned schedules
+	CmdEnds   []int     `json:"cmd_ends,omitempty"` // C07: byte offset just after each complete command
+	Heredocs  []HereDoc `json:"heredocs,omitempty"` // C08: expected here-documents in source order
+	Note      string    `json:"note,omitempty"`
+	GenTape   []uint32  `json:"gen_tape,omitempty"`  // generator choice tape (for shrinking); not part of the case identity
+	Mode      uint      `json:"mode,omitempty"`      // expand: ExpMode
+	DFS       int       `json:"dfs,omitempty"`       // >0: walk ALL schedule tapes of this case depth-first (at most this many runs) instead of the planned schedules
+	Bystander bool      `json:"bystander,omitempty"` // parse/stream with a reader source: after the last call, an unrelated ParseCommands call from a plain io.Reader is made before the reader is looked at again
 }
 
 type HereDoc struct {
